@@ -424,18 +424,19 @@ impl VersionManager {
             let current_min = self.min_version.load(Ordering::Acquire);
             let version = self.current_version.fetch_add(1, Ordering::AcqRel) + 1;
 
+            // Count the token while the mutex is still held: a token that has a version
+            // but is not counted yet would let a concurrent release advance min_version
+            // past it (try_advance_min_version takes the same mutex).
+            self.active_readers.fetch_add(1, Ordering::Relaxed);
+
             (version, current_min)
         } else {
             // Single-threaded modes don't need version tracking
+            self.active_readers.fetch_add(1, Ordering::Relaxed);
             (1, 1)
         };
         #[cfg(zipora_verif)]
-        crate::verif_hooks::sched_point("vm.r.versioned", version, min_version);
-
-        // Increment active reader count
-        self.active_readers.fetch_add(1, Ordering::Relaxed);
-        #[cfg(zipora_verif)]
-        crate::verif_hooks::sched_point("vm.r.counted", version, 0);
+        crate::verif_hooks::sched_point("vm.r.counted", version, min_version);
 
         // Update statistics
         if let Ok(mut stats) = self.stats.lock() {
@@ -469,38 +470,36 @@ impl VersionManager {
 
         let start_time = Instant::now();
 
-        // For OneWriteMultiRead, ensure no other writers are active
-        if self.concurrency_level == ConcurrencyLevel::OneWriteMultiRead {
-            let current_writers = self.active_writers.load(Ordering::Acquire);
-            #[cfg(zipora_verif)]
-            crate::verif_hooks::sched_point("vm.w.loaded", current_writers, 0);
-            if current_writers > 0 {
-                return Err(ZiporaError::resource_busy(
-                    "Another writer is already active in OneWriteMultiRead mode",
-                ));
-            }
-        }
-
         // Acquire version under lock for synchronized levels
         let (version, min_version) = if self.concurrency_level.requires_synchronization() {
             let _lock = self.token_chain_mutex.lock().map_err(|_| {
                 ZiporaError::system_error("Failed to acquire token chain mutex for writer")
             })?;
 
+            // For OneWriteMultiRead, ensure no other writers are active.  The check and the
+            // increment below form one critical section, so two threads cannot both pass it.
+            if self.concurrency_level == ConcurrencyLevel::OneWriteMultiRead {
+                let current_writers = self.active_writers.load(Ordering::Acquire);
+                if current_writers > 0 {
+                    return Err(ZiporaError::resource_busy(
+                        "Another writer is already active in OneWriteMultiRead mode",
+                    ));
+                }
+            }
+
             let current_min = self.min_version.load(Ordering::Acquire);
             let version = self.current_version.fetch_add(1, Ordering::AcqRel) + 1;
 
+            // Count the token while the mutex is still held (see acquire_reader_token)
+            self.active_writers.fetch_add(1, Ordering::Relaxed);
+
             (version, current_min)
         } else {
+            self.active_writers.fetch_add(1, Ordering::Relaxed);
             (1, 1)
         };
         #[cfg(zipora_verif)]
-        crate::verif_hooks::sched_point("vm.w.versioned", version, min_version);
-
-        // Increment active writer count
-        self.active_writers.fetch_add(1, Ordering::Relaxed);
-        #[cfg(zipora_verif)]
-        crate::verif_hooks::sched_point("vm.w.counted", version, 0);
+        crate::verif_hooks::sched_point("vm.w.counted", version, min_version);
 
         // Update statistics
         if let Ok(mut stats) = self.stats.lock() {
@@ -559,17 +558,17 @@ impl VersionManager {
     /// This is a simplified version - in a full implementation, this would
     /// track individual token versions in a linked list.
     fn try_advance_min_version(&self) {
+        // Serialised with token acquisition: under the mutex a token either has no version
+        // yet or is already counted, so "both counters are zero" means no token is live.
+        let _lock = match self.token_chain_mutex.lock() {
+            Ok(guard) => guard,
+            Err(_) => return,
+        };
         if self.active_readers.load(Ordering::Relaxed) == 0
             && self.active_writers.load(Ordering::Relaxed) == 0
         {
-            #[cfg(zipora_verif)]
-            crate::verif_hooks::sched_point("vm.adv.zero", 0, 0);
             let current = self.current_version.load(Ordering::Acquire);
-            #[cfg(zipora_verif)]
-            crate::verif_hooks::sched_point("vm.adv.cur", current, 0);
             self.min_version.store(current, Ordering::Release);
-            #[cfg(zipora_verif)]
-            crate::verif_hooks::sched_point("vm.adv.store", current, 0);
         }
     }
 
